@@ -3726,6 +3726,20 @@ func (t *Topic) markDeleted() {
 	t.statusChangeBits(topicStatusMarkedDeleted, true)
 }
 
+// markDeletedOnce marks the topic as being deleted and reports whether it was this call which set the
+// mark: only that caller may send the shutdown request, the topic reads just one.
+func (t *Topic) markDeletedOnce() bool {
+	for {
+		oldStatus := atomic.LoadInt32(&t.status)
+		if oldStatus&topicStatusMarkedDeleted != 0 {
+			return false
+		}
+		if atomic.CompareAndSwapInt32(&t.status, oldStatus, oldStatus|topicStatusMarkedDeleted) {
+			return true
+		}
+	}
+}
+
 // markReadOnly suspends/un-suspends the topic: adds or removes the 'read-only' flag.
 func (t *Topic) markReadOnly(readOnly bool) {
 	t.statusChangeBits(topicStatusReadOnly, readOnly)
